@@ -113,10 +113,16 @@ def make_Y0(cfg):
     return [rng.normal(size=(r0[k], ns[k], r0[k + 1])) for k in range(len(ns))]
 
 
-def run_impl(tn, cfg, objective=None, Y0=None, max_calls=4000):
+def run_impl(tn, cfg, objective=None, Y0=None, max_calls=4000, max_requests=6000, max_seconds=60.0):
     """Run teneva.cross on the configuration with recorders installed.  Returns a dict with everything observed.
     cfg keys: ns r0 seedY m e nswp e_vld hasI hasy dr_min dr_max scale cache(None|list of (idx, val)) kNone kcb
-    (None = no callback, -1 = callback never true, s = true at sweep s) a b p"""
+    (None = no callback, -1 = callback never true, s = true at sweep s) a b p box.
+    Hard cap on every run: more than max_calls calls of the objective, more than max_requests invocations of
+    _func_eval (a run can spin on fully cached batches without ever calling the objective) or more than max_seconds
+    of wall time raise TooLong out of cross.  Every generated configuration has a criterion that must fire (nswp, a
+    finite budget m - with a cache through the conv rule -, ...), so callers treat TooLong as "run did not stop"."""
+    import time as _time
+    t_start = _time.time()
     cr = sys.modules['teneva.cross']
     rec = dict(picks=[], er=[], ac=[], ad=[], batches=[], requests=[], mv_args=[])
     saved = dict(_maxvol=tn._maxvol, erank=tn.erank, accuracy=tn.accuracy, accuracy_on_data=tn.accuracy_on_data,
@@ -151,6 +157,8 @@ def run_impl(tn, cfg, objective=None, Y0=None, max_calls=4000):
         return v
 
     def w_fe(f, I, info, cache=None):
+        if len(rec['requests']) >= max_requests or _time.time() - t_start > max_seconds:
+            raise TooLong()
         rec['requests'].append(np.asarray(I).tolist())
         return saved['_func_eval'](f, I, info, cache)
 
